@@ -23,6 +23,7 @@ func main() {
 	seed := flag.Uint64("seed", 1, "seed")
 	n := flag.Int("n", 4, "rounds")
 	out := flag.String("out", "", "output file")
+	defsFile := flag.String("defs", "", "probe mode: JSON file with pipeline definitions")
 	flag.Parse()
 	outFile = os.Stdout
 	if *out != "" {
@@ -45,6 +46,8 @@ func main() {
 		logMode(*seed, *n)
 	case "env":
 		envMode(*seed, *n)
+	case "probe":
+		probeMode(*defsFile)
 	case "proc":
 		procMode(*seed, *n)
 	default:
